@@ -2036,3 +2036,40 @@ func (c *Ctx) ruleQuotedEscapes(m *scanfsm.Machine, rule string) {
 		r.Undecided(rule, "sites", "no escape state of a quoted parameter recognised in the automaton", "")
 	}
 }
+
+// ruleSchemaExtentByDependency: where a JSight schema body ends is not decided by the scanner of this module but by
+// the schema reader of jsight-schema-core (JSchema.Len). That reader also consumes what FOLLOWS the schema as long as it
+// looks like a comment to it, and its comment grammar is not the one of the API language: a bare "#" line makes it
+// swallow the next line, "## note" is an error. The lines between two directives are then not insignificant (F37). The
+// rule names the call sites; the finding is recorded against them, the dependency is read-only.
+func (c *Ctx) ruleSchemaExtentByDependency(rule string) {
+	r := c.R
+	r.Rule(rule, "the extent of a schema body is computed by the scanner of this module, not taken from (*jschema.JSchema).Len of the dependency, whose reader goes on into the lines after the schema and reads '#' comments there by a grammar of its own (known finding F37: the one call site in package scanner)", 1)
+	pk := c.P.Pkg("scanner")
+	if pk == nil {
+		r.Undecided(rule, "anchor", "package scanner not found", "")
+		return
+	}
+	n := 0
+	for _, f := range c.libFns() {
+		if f.Pkg != pk {
+			continue
+		}
+		ast.Inspect(f.Decl.Body, func(nd ast.Node) bool {
+			call, ok := nd.(*ast.CallExpr)
+			if !ok {
+				return true
+			}
+			cal := callee(pk, call)
+			if cal == nil || cal.Name() != "Len" || cal.Pkg() == nil || !strings.HasSuffix(cal.Pkg().Path(), "notations/jschema") {
+				return true
+			}
+			n++
+			r.Bad(rule, f.Name()+" | JSchema.Len", "the end of the schema body is where the dependency's reader stops, and it stops after the '#' comments that follow the schema, read by its own grammar: a bare '#' line after a body makes the next directive disappear ('200' / '{}' / '#' / '404 any' builds without the 404), '## note' there is an error, while both are plain comments between any other two directives", c.pos(call.Pos()))
+			return true
+		})
+	}
+	if n == 0 {
+		r.Ok(rule, "package scanner", "no schema extent is taken from the dependency's JSchema.Len", "")
+	}
+}
